@@ -18,4 +18,50 @@ def keyCutShort : B :=
 def blockView (r : Except Err (Descriptor.Block × Nat)) : Except Err (B × Nat × Bool) :=
   r.map (fun x => (x.1.encT Descriptor.realTables 1, x.2, decide x.1.KeysFull))
 
+/-- the `struct` items of the flat models (Model/Payload3*.lean), class by class, in the order of the source: a `rec fmt` is
+its format, a `counted w` contributes the count field. `C02.model_formats_are_the_source_pairs`: for every class here BOTH
+lists of its regenerated row (the formats `read` unpacks, the formats `write` packs) parse to exactly these items - the models
+use one format on both sides because the source does. -/
+def modelFormats : List (String × List FI) := [
+  ("image_resources.AlphaIdentifiers", [U 4]),
+  ("image_resources.DisplayInfo", [U 4]),
+  ("image_resources.AlphaChannel", AlphaChannel.fmt),
+  ("image_resources.Byte", [U 1]),
+  ("image_resources.GridGuidesInfo", [U 4, U 4, U 4] ++ [U 4] ++ [U 4, U 1]),
+  ("image_resources.HalftoneScreen", HalftoneScreen.fmt),
+  ("image_resources.Integer", [S 4]),
+  ("image_resources.LayerGroupEnabledIDs", [U 1]),
+  ("image_resources.LayerGroupInfo", [U 2]),
+  ("image_resources.LayerSelectionIDs", [U 2] ++ [U 4]),
+  ("image_resources.ShortInteger", [U 2]),
+  ("image_resources.PixelAspectRatio", [U 4, U 8]),
+  ("image_resources.PrintFlagsInfo", [U 2, U 1, X 1, U 4, U 2]),
+  ("image_resources.PrintScale", [U 2, U 4, U 4, U 4]),
+  ("image_resources.ResoulutionInfo", [U 4, U 2, U 2, U 4, U 2, U 2]),
+  ("image_resources.ThumbnailResource", Thumbnail.headFmt ++ [U 4] ++ Thumbnail.tailFmt),
+  ("image_resources.TransferFunction", TransferFunction.curveFmt ++ [U 2]),
+  ("image_resources.URLList", [U 4]),
+  ("image_resources.URLItem", [U 4, U 4]),
+  ("image_resources.VersionInfo", [U 4, Q] ++ [U 4]),
+  ("image_resources.SlicesV6", SliceV6.bboxFmt ++ [U 4]),
+  ("adjustments.BrightnessContrast", [U 2, U 2, U 2, U 1, X 1]),
+  ("adjustments.ColorBalance", s2x3 ++ s2x3 ++ s2x3 ++ [U 1]),
+  ("adjustments.ChannelMixer", [U 2, U 2] ++ [S 2, S 2, S 2, S 2, S 2]),
+  ("adjustments.Exposure", [U 2, U 4, U 4, U 4]),
+  ("adjustments.HueSaturation", [U 2, U 1, X 1] ++ s2x3 ++ s2x3 ++ s2x4 ++ s2x3),
+  ("adjustments.LevelRecord", LevelRecord.fmt),
+  ("adjustments.SelectiveColor", [U 2, U 2] ++ s2x4),
+  ("adjustments.ColorStop", ColorStop.fmt),
+  ("adjustments.TransparencyStop", TransparencyStop.fmt),
+  ("adjustments.PhotoFilter", [U 2] ++ PhotoFilter.xyzFmt ++ PhotoFilter.colorFmt ++ PhotoFilter.tailFmt),
+  ("adjustments.GradientMap", GradientMap.headFmt ++ [SN 4] ++ [U 2] ++ [U 2] ++ u2x4 ++ [U 4, U 2, U 2] ++ [U 4, U 2] ++ u2x4 ++
+    u2x4 ++ [X 2]),
+  ("adjustments.CurvesExtraMarker", CurvesExtraMarker.hdrFmt),
+  ("vector.ClipboardRecord", clipFmt),
+  ("vector.InitialFillRule", initFmt),
+  ("vector.Knot", knotFmt),
+  ("vector.Subpath", [U 2] ++ subFmt ++ [U 2]),
+  ("vector.VectorMaskSetting", VectorMaskSetting.headFmt)
+]
+
 end PsdVerif.Payload3.ResaveSamples
